@@ -97,3 +97,42 @@ Example c17_nonvacuous :
   drain (is_priv rules) (include_private (nonmatching_iter rules (scan_rules rules verdict)) true)
     = Some ([(3, 0%nat); (2, 1%nat); (1, 2%nat)], 0).
 Proof. vm_compute. repeat split. Qed.
+
+(* ---- faithfulness of match data and context windows ------------------------ *)
+From YV Require Import Scanner.Snippets Scanner.SnippetsProofs.
+Local Open Scope N_scope.
+
+(* Scanner::scan: every match inside the data is reported with exactly ctx bytes
+   on each side clipped to the data; the bytes at the relative range are the
+   data at the match's range. *)
+Theorem match_context_exact_contiguous : forall (data : list N) (rs re ctx : N),
+  rs <= re -> re <= len data ->
+  let '(ws, we) := window 0 (len data) rs re ctx in
+  exists sl, get_ctx_single data rs re ctx = Some (sl, (rs - ws, re - ws))
+             /\ slice data ws we = Some sl
+             /\ slice sl (rs - ws) (re - ws) = slice data rs re.
+Proof. exact single_exact. Qed.
+Print Assumptions match_context_exact_contiguous.
+
+(* blocks::Scanner: the same, clipped to the match's own block, for every list
+   of pairwise disjoint blocks in any order and every context size; in
+   particular the lookup never fails (Match::data cannot panic). *)
+Theorem match_context_exact_blocks : forall (ctx : N) (blks : list block),
+  Forall matches_ok blks -> disjoint_blocks blks ->
+  forall b rs re, In b blks -> In (rs, re) (b_matches b) ->
+  let '(ws, we) := window (b_base b) (b_hi b) rs re ctx in
+  exists sl, get_ctx_multi (retain_all ctx blks) rs re ctx = Some (sl, (rs - ws, re - ws))
+             /\ slice (b_data b) (ws - b_base b) (we - b_base b) = Some sl
+             /\ slice sl (rs - ws) (re - ws) = slice (b_data b) (rs - b_base b) (re - b_base b).
+Proof. exact blocks_context_exact. Qed.
+Print Assumptions match_context_exact_blocks.
+
+(* non-vacuity: three matches with overlapping context windows (the shape of
+   the repaired defect), two blocks with a gap *)
+Example c17_snippets_nonvacuous :
+  let d1 := map N.of_nat (seq 0 30) in
+  let d2 := map N.of_nat (seq 100 8) in
+  let blks : list block := [(0, d1, [(9, 10); (12, 14); (15, 16)]); (40, d2, [(41, 43)])] in
+  get_ctx_multi (retain_all 4 blks) 12 14 4 = Some ([8; 9; 10; 11; 12; 13; 14; 15; 16; 17], (4, 6)) /\
+  get_ctx_multi (retain_all 4 blks) 41 43 4 = Some ([100; 101; 102; 103; 104; 105; 106], (1, 3)).
+Proof. vm_compute. split; reflexivity. Qed.
